@@ -47,6 +47,45 @@ func engScenarios() []engScenario {
 	}
 }
 
+// numQuickEngScenarios / allEngScenarios: the 9 hand-picked scenarios are followed by
+// generated ones. Quick: builds and merges on the exact/clustered class boundary (999 /
+// 1000 vectors), every batch of C14's build alphabet with 1 or 2 documents as a build,
+// every ordered pair of its 1-document batches as a merge. Thorough adds every ordered
+// pair of its 2-document batches, nothing dropped and with one document of each dropped.
+var engScenarioCache []engScenario
+var engScenarioQuick int
+
+func allEngScenarios() ([]engScenario, int) {
+	if engScenarioCache != nil {
+		return engScenarioCache, engScenarioQuick
+	}
+	rv := engScenarios()
+	rv = append(rv,
+		engScenario{"build of exactly 1000 vectors (first clustered size)", []spec.Batch{latticeBatch(989, "l2_norm")}, nil, true},
+		engScenario{"build of 999 vectors (last exact size)", []spec.Batch{latticeBatch(988, "l2_norm")}, nil, true},
+		engScenario{"merge of 500 + 500 vectors into exactly 1000", []spec.Batch{enum.VecLattice(500, 0, "a", "l2_norm"), enum.VecLattice(500, 20, "b", "l2_norm")}, [][]int{nil, nil}, false},
+		engScenario{"merge of 1001 vectors with two deletions (clustered input, exact output)", []spec.Batch{enum.VecLattice(1001, 40, "c", "l2_norm")}, [][]int{{0, 500}}, false},
+	)
+	va := enum.Menu("vecA")
+	for i, b := range va {
+		rv = append(rv, engScenario{fmt.Sprintf("build of vector alphabet item %d", i), []spec.Batch{b}, nil, true})
+	}
+	for i := 0; i < 9; i++ {
+		for j := 0; j < 9; j++ {
+			rv = append(rv, engScenario{fmt.Sprintf("merge of vector alphabet items %d,%d", i, j), []spec.Batch{va[i], va[j]}, [][]int{nil, nil}, false})
+		}
+	}
+	engScenarioQuick = len(rv)
+	for i := 9; i < len(va); i++ {
+		for j := 9; j < len(va); j++ {
+			rv = append(rv, engScenario{fmt.Sprintf("merge of vector alphabet items %d,%d", i, j), []spec.Batch{va[i], va[j]}, [][]int{nil, {}}, false})
+			rv = append(rv, engScenario{fmt.Sprintf("merge of vector alphabet items %d,%d with deletions", i, j), []spec.Batch{va[i], va[j]}, [][]int{{0}, {1}}, false})
+		}
+	}
+	engScenarioCache = rv
+	return rv, engScenarioQuick
+}
+
 func optBatch(b spec.Batch, opt string) spec.Batch {
 	for d := range b.Docs {
 		for f := range b.Docs[d].Fields {
@@ -83,7 +122,8 @@ func allVectorsRetrievable(seg segment.Segment, exp *ref.Content) string {
 
 func runC19(ci interface{}, a *run.Acc) {
 	c := *ci.(*EngineFaultCase)
-	sc := engScenarios()[c.Scenario]
+	scs, _ := allEngScenarios()
+	sc := scs[c.Scenario]
 	fail := func(kind, msg string) {
 		a.Violation(kind, fmt.Sprintf("scenario %q: %s", sc.name, msg))
 	}
@@ -216,12 +256,16 @@ func init() {
 	run.Register(&run.Def{
 		ID:          "C19",
 		Level:       "fault_enumeration",
-		Rule:        "deviation enumeration of vector-engine failures (vectors tag, stand-in engine with a fault plan): for each of 9 scenarios (build with a flat index over two vector fields; build of 1200 vectors = clustered index with the train path; merge of two segments; merge of three segments with deletions; merge of 2 x 600 vectors into a clustered index; merge of four segments incl. one without the field and one fully deleted; merge of two-field segments; builds with the memory-efficient and latency optimisations) the fault-free run yields the engine call log; then one run per (operation kind, n) for EVERY n that occurred, for IndexFactory, SetDirectMap, Train, AddWithIDs, WriteIndexIntoBuffer, ReadIndexFromBuffer, ReconstructBatch. Oracle: New / Merge returns an error, or else every vector of the reference is retrievable (count statistic; exact search with k = number of vectors for flat indexes) - otherwise 'silently missing'; a failed merge leaves no file; the engine's live-object count returns to its pre-call value; no double free / use after free. Non-trivial = one (scenario, operation, n).",
+		Rule:        "deviation enumeration of vector-engine failures (vectors tag, stand-in engine with a fault plan): for each scenario - 9 hand-picked ones (build with a flat index over two vector fields; build of 1200 vectors = clustered index with the train path; merge of two segments; merge of three segments with deletions; merge of 2 x 600 vectors into a clustered index; merge of four segments incl. one without the field and one fully deleted; merge of two-field segments; builds with the memory-efficient and latency optimisations), builds and merges of exactly 999 / 1000 vectors, and generated ones (see bounds): every small batch of the vector build alphabet as a build, ordered pairs of them as merges - the fault-free run yields the engine call log; then one run per (operation kind, n) for EVERY n that occurred, for IndexFactory, SetDirectMap, Train, AddWithIDs, WriteIndexIntoBuffer, ReadIndexFromBuffer, ReconstructBatch. Oracle: New / Merge returns an error, or else every vector of the reference is retrievable (count statistic; exact search with k = number of vectors for flat indexes) - otherwise 'silently missing'; a failed merge leaves no file; the engine's live-object count returns to its pre-call value; no double free / use after free. Non-trivial = one (scenario, operation, n).",
 		Assumptions: []string{"the vector engine is the pure-Go stand-in (DESIGN 3.4); its fault plan fails exactly the n-th call of an operation"},
-		Bounds:      map[string]string{"quick": "all engine calls of all 9 scenarios", "thorough": "same: the fault space is enumerated completely in both tiers"},
+		Bounds:      map[string]string{"quick": "all engine calls of 184 scenarios: the 9 hand-picked ones, 4 on the 999/1000-vector class boundary, every 1- and 2-document batch of the vector build alphabet as a build (90), every ordered pair of its 1-document batches as a merge (81)", "thorough": "quick + every ordered pair of the 2-document batches as a merge, without and with deletions (13122 more scenarios)"},
 		New:         func() interface{} { return &EngineFaultCase{} },
 		Gen: func(tier string, emit func(interface{})) {
-			for i := range engScenarios() {
+			scs, nq := allEngScenarios()
+			for i := range scs {
+				if tier == "quick" && i >= nq {
+					break
+				}
 				emit(EngineFaultCase{Scenario: i})
 			}
 		},
